@@ -179,6 +179,30 @@ def evaluate_cross(case):
             r2 = core.compare(exp2, got2, ordered=False, labelled=False, check_kinds=False)
             if r2:
                 viols.append({"kind": "index_by_name_join_" + r2.split(" ")[0], "detail": r2})
+            # a TWO-column key list must send a key to the same partition whatever the column layout of the frame
+            lay = {}
+            for name, cols in (("k,j,rid", ["k", "j", "rid"]), ("rid,j,k", ["rid", "j", "k"]), ("j,rid,k", ["j", "rid", "k"])):
+                fr = tables.from_parts([p_[cols] for p_ in make_frame(case["n_in"], "int")])
+                kw = dict(npartitions=case["n_out"], shuffle_method=case["method"])
+                if case.get("max_branch"):
+                    kw["max_branch"] = case["max_branch"]
+                ps = run_parts(fr.shuffle(on=["k", "j"], **kw).optimize(fuse=False).expr)
+                a = {}
+                for i, p_ in enumerate(ps):
+                    for t in set(zip(p_["k"].tolist(), p_["j"].tolist())):
+                        a.setdefault(t, set()).add(i)
+                lay[name] = {t: sorted(v) for t, v in sorted(a.items())}
+            if len({repr(v) for v in lay.values()}) != 1:
+                viols.append({"kind": "partition_number_differs_across_column_layouts", "detail": str(lay)[:300]})
+            l2 = tables.from_parts(make_frame(case["n_in"], "int"))
+            r2f = [p_[["rid", "j", "k"]].rename(columns={"rid": "rid2", "j": "y", "k": "x"}) for p_ in make_frame(max(1, case["n_in"] - 1), "int")]
+            with dask.config.set({"dataframe.shuffle.method": case["method"]}):
+                m3 = l2.merge(tables.from_parts(r2f), left_on=["k", "j"], right_on=["x", "y"], how="inner", npartitions=case["n_out"], broadcast=False)
+                got3 = core.run(m3.optimize(fuse=False).expr)
+            exp3 = pd.concat(make_frame(case["n_in"], "int")).merge(pd.concat(r2f), left_on=["k", "j"], right_on=["x", "y"])
+            r3 = core.compare(exp3, got3, ordered=False, labelled=False, check_kinds=False)
+            if r3:
+                viols.append({"kind": "two_column_join_" + r3.split(" ")[0], "detail": r3})
             return {"status": "viol" if viols else "ok", "viols": viols, "info": {"nontrivial": True}}
     except CaseTimeout as e:
         return {"status": "viol", "viols": [{"kind": "timeout", "detail": str(e)}], "info": {}}
@@ -243,7 +267,7 @@ def run(ctx):
     ctx.rule = (f"full grid (n_in, n_out) in [1..{nmax}]^2 x max_branch {branches} (single-stage, multi-stage with padding, regrouping when counts differ) x "
                 "method tasks/disk x ignore_index x key kind (int, float, str, categorical, with nulls, two columns, index, aligned Series) x every subset of "
                 "output partitions (n_out<=4) or all singletons+complements; every key value occurs in every input partition; plus int/float/categorical "
-                "partition-number agreement and a mixed-dtype hash join vs pandas; non-trivial = more than one partition on some side")
+                "partition-number agreement, a mixed-dtype hash join vs pandas, two-column-key agreement across 3 column layouts and a two-column hash join of differently laid out frames; non-trivial = more than one partition on some side")
     res = ctx.map(dispatch, cases, chunk=24)
     ctx.states = len(cases)
     ctx.transitions = sum(1 + len(c.get("subsets", [])) for c in cases)
